@@ -3,10 +3,11 @@
    i.e. the range of the hover data, for every constraint and expression kind) and Model/TypeHover.v (what the hover on a
    reference says: address, type description, target description), compared with HoverAtPos on every run, and
    Model/HoverData.v (Constraint.EmptyHoverData: WHAT the hover of a list / set / tuple / map / object value or a
-   fixed value says), compared with EmptyHoverData on every run. *)
+   fixed value says), compared with EmptyHoverData on every run, and Model/AttrDetail.v (what the hover on an attribute
+   NAME says: name, marks, friendly name of the constraint, description), compared with HoverAtPos on every run. *)
 From Coq Require Import String List ZArith Bool.
 From HV Require Import Base.Sexp Base.Pos Model.Schema Model.Ast Model.Merge Model.Hover Model.Origins Model.ValueTokens Model.ValueHover
-                       Proofs.HoverProofs Proofs.ValueTokensProofs Proofs.ValueHoverProofs Model.TypeHover Proofs.TypeHoverProofs Model.Snippet Model.HoverData Proofs.HoverDataProofs.
+                       Proofs.HoverProofs Proofs.ValueTokensProofs Proofs.ValueHoverProofs Model.TypeHover Proofs.TypeHoverProofs Model.Snippet Model.HoverData Proofs.HoverDataProofs Model.AttrDetail Proofs.AttrDetailProofs.
 
 (* whenever hover data is returned for an attribute name, block type or label - at any nesting
    depth - its range contains the cursor *)
@@ -86,3 +87,27 @@ Theorem C12_value_description_not_empty : forall f c lvl s,
   not_lit_value c -> ehd f c lvl = Some (Some s) -> s <> ""%string.
 Proof. exact ehd_content_nonempty. Qed.
 Print Assumptions C12_value_description_not_empty.
+
+(* ---- the content of the hover on an attribute name (Model/AttrDetail.v) ---- *)
+
+(* the content names the attribute: it begins with the name in bold *)
+Theorem C12_attribute_hover_names_the_attribute : forall name a,
+  String.prefix ("**" ++ name ++ "**") (attr_hover_content name a) = true.
+Proof. exact attr_hover_names_the_attribute. Qed.
+Print Assumptions C12_attribute_hover_names_the_attribute.
+
+(* ... and carries the description the schema gives the attribute, as its last paragraph *)
+Theorem C12_attribute_hover_carries_the_description : forall name a,
+  as_desc a <> ""%string ->
+  exists head, attr_hover_content name a = (head ++ nl ++ nl ++ as_desc a)%string.
+Proof. exact attr_hover_carries_the_description. Qed.
+Print Assumptions C12_attribute_hover_carries_the_description.
+
+(* the marks shown between name and type are exactly those the schema's flags say *)
+Theorem C12_attribute_hover_marks : forall f,
+  (In "write-only"%string (detail_marks f) <-> af_writeonly f = true) /\
+  (In "required"%string (detail_marks f) <-> af_required f = true) /\
+  (In "optional"%string (detail_marks f) <-> af_required f = false /\ af_optional f = true) /\
+  (In "sensitive"%string (detail_marks f) <-> af_sensitive f = true).
+Proof. exact detail_marks_spec. Qed.
+Print Assumptions C12_attribute_hover_marks.
